@@ -387,6 +387,10 @@ def main(run, replay=None):
         "cases = (mask, layout, unconditional transform, box-bounded, features outside the box, direction) states of Coupling.tla x coupling class x context, each "
         "checked for bit-identical identity features and for its Jacobian pattern; non-trivial = distinct such tuples"
     )
+    if replay and replay["case"].get("kind") == "nets":
+        from vcore import nets
+
+        return nets.replay(run, replay["case"], "C07", clauses={"rows_coupled_in_eval"})
     if replay and replay["case"].get("kind") == "assembly":
         from vcore import assembly
 
@@ -480,6 +484,11 @@ def main(run, replay=None):
 
     for f in assembly.run_assembly(run, "realnvp"):
         run.violation({"kind": "assembly", "clause": f["clause"], "flow": "realnvp"}, "SimpleRealNVP %s: %s" % (f["cfg"], f["detail"]), dict({k: v for k, v in f.items() if k != "detail"}, kind="assembly"))
+    # the conditioners themselves (spec/Nets.tla): in evaluation mode a conditioner's output for row i depends on row i
+    # only - otherwise the layer built on it conditions on other rows' features, not "only on the identity features"
+    from vcore import nets
+
+    nets.run_leg(run, "C07", clauses={"rows_coupled_in_eval"})
     run.exhaustive = thorough
     run.assumptions = [
         "assembled flows (Assembly.tla): 2..4 features, 1..3 layers, with / without batch norm between layers; a Jacobian entry that is exactly zero at three generic points counts as 'does not depend'",
